@@ -52,9 +52,9 @@ def main():
             if rc != 0:
                 meta["status"] = "patch-does-not-apply"; meta["detail"] = o[-800:]
                 return finish(meta, out, src, wt, None)
-            sh("git diff HEAD > /tmp/sw/rebased.diff", cwd=wt)
+            sh(f"git diff HEAD > /tmp/sw/rebased_{pid}{var}.diff", cwd=wt)
             sh("git reset -q && git checkout -- .", cwd=wt)
-            patch = "/tmp/sw/rebased.diff"
+            patch = f"/tmp/sw/rebased_{pid}{var}.diff"
         else:
             pass
         meta["ran"].append(f"{how}: ok")
